@@ -19,7 +19,7 @@ from .. import q
 from ..rules import call_sites, event_facts, node_calls
 from ..mutate import mutate, remove_stmts, replace_stmt, replace_expr, parse_stmt, parse_expr
 from ..model import AnalysisError
-from ..x_scope import own_nodes
+from ..x_scope import own_nodes, strip_annotations
 from ..x_flow import resolve_local, unique_def
 
 TECHNIQUE = "backward expression resolution (def-use over single-assignment locals and list builders) + sanitizer (taint) predicate on every component of base string and key + sibling/call-site table agreement"
@@ -648,6 +648,7 @@ def rule_call_sites(ck):
 
 
 def run(ck):
+    ck.repo = strip_annotations(ck.repo, F)
     ck.rule("C48.hmac-sha1", "signature = base64(HMAC-SHA1(key, base string)) without trailing newline")
     ck.rule("C48.base-string", "base string = '&'.join(_oauth_escape(x) for x in [METHOD.upper(), normalised URL, parameter string])")
     ck.rule("C48.url-normalized", "normalised URL = scheme.lower() + '://' + netloc.lower() + path (no query/fragment)")
